@@ -1323,6 +1323,10 @@ class PrivKey(PubKey):
     def sign(self, sigdata, hash_alg):
         return NotImplemented  # pragma: no cover
 
+    def matches_public(self):
+        """``False`` if the secret fields do not belong to the public fields of this key (``True`` also if that cannot be told)"""
+        return True
+
     def clear(self):
         """delete and re-initialize all private components to zero"""
         for field in self.__privfields__:
@@ -1427,6 +1431,13 @@ class RSAPriv(PrivKey, RSAPub):
     def sign(self, sigdata, hash_alg):
         return self.__privkey__().sign(sigdata, padding.PKCS1v15(), hash_alg)
 
+    def matches_public(self):
+        p, q, d, e, n = int(self.p), int(self.q), int(self.d), int(self.e), int(self.n)
+        if p < 2 or q < 2 or p * q != n:
+            return False
+        lam = (p - 1) * (q - 1) // math.gcd(p - 1, q - 1)
+        return (e * d) % lam == 1
+
 
 class DSAPriv(PrivKey, DSAPub):
     __privfields__ = ('x',)
@@ -1486,6 +1497,9 @@ class DSAPriv(PrivKey, DSAPub):
     def sign(self, sigdata, hash_alg):
         return self.__privkey__().sign(sigdata, hash_alg)
 
+    def matches_public(self):
+        return 0 < self.x < self.q and pow(int(self.g), int(self.x), int(self.p)) == self.y
+
 
 class ElGPriv(PrivKey, ElGPub):
     __privfields__ = ('x', )
@@ -1523,6 +1537,9 @@ class ElGPriv(PrivKey, ElGPub):
         if self.s2k.usage in [254, 255]:
             self.chksum = kb
             del kb
+
+    def matches_public(self):
+        return 0 < self.x < self.p and pow(int(self.g), int(self.x), int(self.p)) == self.y
 
 
 class ECDSAPriv(PrivKey, ECDSAPub):
@@ -1572,6 +1589,17 @@ class ECDSAPriv(PrivKey, ECDSAPub):
 
     def sign(self, sigdata, hash_alg):
         return self.__privkey__().sign(sigdata, ec.ECDSA(hash_alg))
+
+    def matches_public(self):
+        try:
+            curve = self.oid.curve()
+        except Exception:  # pragma: no cover
+            return True  # a curve this backend does not have
+        try:
+            pn = ec.derive_private_key(int(self.s), curve, default_backend()).public_key().public_numbers()
+        except ValueError:
+            return False
+        return pn.x == self.p.x and pn.y == self.p.y
 
 
 class EdDSAPriv(PrivKey, EdDSAPub):
@@ -1629,6 +1657,13 @@ class EdDSAPriv(PrivKey, EdDSAPub):
         digest.update(sigdata)
         sigdata = digest.finalize()
         return self.__privkey__().sign(sigdata)
+
+    def matches_public(self):
+        try:
+            pub = self.__privkey__().public_key()
+        except ValueError:
+            return False
+        return pub.public_bytes(encoding=serialization.Encoding.Raw, format=serialization.PublicFormat.Raw) == bytes(self.p.x)
 
 
 class ECDHPriv(ECDSAPriv, ECDHPub):
@@ -1698,6 +1733,15 @@ class ECDHPriv(ECDSAPriv, ECDHPub):
 
     def sign(self, sigdata, hash_alg):
         raise PGPError("Cannot sign with an ECDH key")
+
+    def matches_public(self):
+        if self.oid != EllipticCurveOID.Curve25519:
+            return ECDSAPriv.matches_public(self)
+        try:
+            pub = self.__privkey__().public_key()
+        except (ValueError, OverflowError):
+            return False
+        return pub.public_bytes(encoding=serialization.Encoding.Raw, format=serialization.PublicFormat.Raw) == bytes(self.p.x)
 
 
 class CipherText(MPIs):
